@@ -910,3 +910,20 @@ pub fn gen_program(rng: &mut Rng, adversarial: bool, autoescape: bool, restricte
 
 // ------------------------------------------------------------------ direct oracles
 
+
+// (from the "derived checks" section of evalh.rs; used by `has_growth_carrier`)
+fn ex_mentions(e: &Ex, what: &str) -> bool {
+    match e {
+        Ex::Atom(s) => s.contains(what),
+        Ex::Bin(_, l, r) => ex_mentions(l, what) || ex_mentions(r, what),
+        Ex::Un(_, x) | Ex::Attr(x, _, _) | Ex::Test(x, _, _) => ex_mentions(x, what),
+        Ex::Index(x, i, _) => ex_mentions(x, what) || ex_mentions(i, what),
+        Ex::Slice(x, a, bb, c, _) => ex_mentions(x, what) || [a, bb, c].iter().any(|o| o.as_ref().is_some_and(|e| ex_mentions(e, what))),
+        Ex::Filter(x, _, kw) => ex_mentions(x, what) || kw.iter().any(|(_, e)| ex_mentions(e, what)),
+        Ex::Call(_, kw) => kw.iter().any(|(_, e)| ex_mentions(e, what)),
+        Ex::Ternary(c, t, f) => ex_mentions(c, what) || ex_mentions(t, what) || ex_mentions(f, what),
+        Ex::Array(items) => items.iter().any(|(_, e)| ex_mentions(e, what)),
+        Ex::MapLit(items) => items.iter().any(|(_, e)| ex_mentions(e, what)),
+        Ex::Compr(bd, _, t, c) => ex_mentions(bd, what) || ex_mentions(t, what) || c.as_ref().is_some_and(|e| ex_mentions(e, what)),
+    }
+}
